@@ -173,7 +173,7 @@ impl Crash {
     fn step(&self, idx: usize) -> Step { genuine_step(&self.history, idx, self.list, 60) }
     fn as_scenario(&self) -> Scenario {
         Scenario { max_delta_count: self.mc, max_delta_list_len: self.ml,
-                   history: self.history.clone(), steps: Vec::new() }
+                   history: self.history.clone(), steps: Vec::new(), history2: None, fork_at: 0 }
     }
 }
 
